@@ -223,10 +223,50 @@ func runC02(cx *Ctx, r *Report) {
 }
 
 func (cx *Ctx) c02Liquidity(r *Report, per map[string][]bev) {
+	// the deposit-and-mint step: anchored on each mint, with the deposit and the hand-over of
+	// the minted coin that are closest to it on the call chains (whatever helpers sit in
+	// between); everything else is grouped by the function it belongs to
 	group := func(name string) map[*Frame][]bev {
 		m := map[*Frame][]bev{}
+		used := map[*Event]bool{}
 		for _, x := range per[name] {
-			m[hostFrame(x.ev.Fr)] = append(m[hostFrame(x.ev.Fr)], x)
+			if x.ev.Kind != "bank.MintCoins" {
+				continue
+			}
+			g := []bev{x}
+			top := x.ev.Fr
+			for _, kind := range []string{"bank.SendCoins", "bank.SendCoinsFromModuleToAccount"} {
+				var best *Frame
+				var pick []bev
+				for _, y := range per[name] {
+					if y.ev.Kind != kind || used[y.ev] {
+						continue
+					}
+					f, _, _ := commonFrame(x.ev, y.ev)
+					if f == nil {
+						continue
+					}
+					switch {
+					case best == nil || f.Depth > best.Depth:
+						best, pick = f, []bev{y}
+					case f == best:
+						pick = append(pick, y)
+					}
+				}
+				g = append(g, pick...)
+				if best != nil && best.Depth < top.Depth {
+					top = best
+				}
+			}
+			for _, y := range g {
+				used[y.ev] = true
+			}
+			m[top] = append(m[top], g...)
+		}
+		for _, x := range per[name] {
+			if !used[x.ev] {
+				m[hostFrame(x.ev.Fr)] = append(m[hostFrame(x.ev.Fr)], x)
+			}
 		}
 		return m
 	}
@@ -379,4 +419,45 @@ func (cx *Ctx) c02Liquidity(r *Report, per map[string][]bev) {
 // chainMust2: both events are must on their chains and execute together.
 func (w *Walker) chainMust2(a, b *Event) bool {
 	return coExecuted(a, b) || (w.chainMust(a.Fr, a.Site) && w.chainMust(b.Fr, b.Site))
+}
+
+// anchorGroups: for every event of kind anchor, the events of the given kinds that are
+// closest to it on the call chains (deepest lowest-common frame); returns the frame each
+// grouped event belongs to (the highest of the common frames of its group).
+func anchorGroups(evs []*Event, anchor string, kinds []string) map[*Event]*Frame {
+	out := map[*Event]*Frame{}
+	for _, x := range evs {
+		if x.Kind != anchor {
+			continue
+		}
+		g := []*Event{x}
+		top := x.Fr
+		for _, kind := range kinds {
+			var best *Frame
+			var pick []*Event
+			for _, y := range evs {
+				if y.Kind != kind || out[y] != nil {
+					continue
+				}
+				f, _, _ := commonFrame(x, y)
+				if f == nil {
+					continue
+				}
+				switch {
+				case best == nil || f.Depth > best.Depth:
+					best, pick = f, []*Event{y}
+				case f == best:
+					pick = append(pick, y)
+				}
+			}
+			g = append(g, pick...)
+			if best != nil && best.Depth < top.Depth {
+				top = best
+			}
+		}
+		for _, y := range g {
+			out[y] = top
+		}
+	}
+	return out
 }
